@@ -21,6 +21,7 @@ func TestWorker(t *testing.T) {
 		"C27/path-clean":    runPathClean,
 		"C27/path-faulty":   runPathFaulty,
 		"C31/history":       runRevCache,
+		"C31/concurrent":    runRevConcurrent,
 		"C45/access":        runHidden,
 	}})
 }
